@@ -19,7 +19,7 @@ from ..pattern import C, G, V, add, call, div, match, mul, neg, norm
 from ..prov import content_sources
 from ..terms import Term, alts, contains, ends_with_attrs, root_of, show, subterms
 from ..util import calls_in, deep_subterms, guard_leaves, nodes_in
-from .common import EST, FILT, check_weights_pipeline, dispatch_table, estimator_sinks, weights_arg
+from .common import EST, FILT, check_weights_pipeline, dispatch_table, estimator_sinks, none_contradictions, weights_arg
 
 P = "C01"
 
@@ -137,6 +137,95 @@ def _element_at(recv: Term, k: Term):
     return None
 
 
+def _conds_at(ctx: Ctx, f: Func, node: ast.AST) -> dict:
+    """{atom: polarity} known to hold where `node` is evaluated (enclosing ifs / conditional expressions and the
+    path condition of its statement); `a and b` known true contributes both atoms."""
+    from ..util import _enclosing_conds, _pc_literals, norm_cond, stmt_of
+
+    st = stmt_of(node)
+    items = list(_enclosing_conds(ctx, f, node)) + (list(_pc_literals(ctx, f, st)) if st is not None else [])
+    out: dict = {}
+    for a, p in items:
+        if a[0] == "bool" and a[1] == "and" and p:
+            for x in a[2]:
+                a2, p2 = norm_cond(x)
+                out.setdefault(a2, p2)
+        elif a[0] == "bool" and a[1] == "or" and not p:
+            for x in a[2]:
+                a2, p2 = norm_cond(x)
+                out.setdefault(a2, not p2)
+        else:
+            out.setdefault(a, p)
+    return out
+
+
+def _weights_selection(ctx: Ctx, res: RuleResult, f: Func, c: ast.Call, rows: list) -> None:
+    """Contradiction rule: a row of the per-function weight matrix is never read where the matrix is known to be
+    absent, and the configured weights are never chosen where the matrix is known to be present."""
+    X = ctx.X
+    mats = {s[1] for s in rows}
+    for m in mats:
+        isnone = ("cmp", "is", m, ("const", None))
+        n_sites = 0
+        for node in ast.walk(f.node):
+            if isinstance(node, ast.Subscript) and isinstance(node.value, ast.Name) and isinstance(node.ctx, ast.Load) and X.at(f, node.value) == m:
+                n_sites += 1
+                known = _conds_at(ctx, f, node).get(isnone)
+                ok = known is not True
+                res.add(f, node, "a row of the per-function weight matrix is read only where the matrix is present", ok,
+                        "" if ok else f"`{norm_stmt(node)}` is evaluated where `{show(m, 40)} is None` holds: the filter's weights are ignored (and the absent matrix is subscripted)",
+                        construct=f"{f.name}: weights selection (matrix row)")
+            elif isinstance(node, ast.Attribute) and node.attr == "weights" and isinstance(node.ctx, ast.Load):
+                t = X.at(f, node)
+                if ends_with_attrs(t, "realizations", "weights"):
+                    n_sites += 1
+                    known = _conds_at(ctx, f, node).get(isnone)
+                    ok = known is not False
+                    res.add(f, node, "the configured realization weights are chosen only where no per-function matrix is present", ok,
+                            "" if ok else f"`{norm_stmt(node)}` is chosen where `{show(m, 40)}` is present: functions mapped to a filter are weighted by the configured weights instead of the filter's",
+                            construct=f"{f.name}: weights selection (configured)")
+
+
+def _default_map(ctx: Ctx, res: RuleResult, f: Func, c: ast.Call, emap: Term, vals: Term) -> None:
+    """`function_estimators is None` means estimator 0 for every function: the default map is np.zeros over the
+    function axis and is installed exactly when the map is absent."""
+    X = ctx.X
+    dflt = [a for a in alts(emap) if a[0] == "call" and a[1][0] == "global" and a[1][1].startswith("numpy.")]
+    params = [a for a in alts(emap) if a[0] == "param"]
+    if not dflt or not params:
+        return
+    for d in dflt:
+        ok = d[1][1] in ("numpy.zeros", "numpy.zeros_like")
+        res.add(f, c, "an absent estimator map defaults to index 0 (the first estimator) for every function", ok,
+                "" if ok else f"the default map is `{show(d, 60)}`: with one estimator no function is computed at all (uninitialised results)",
+                construct=f"{f.name}: default estimator map value")
+        if ok and d[1][1] == "numpy.zeros" and d[2] and vals[0] == "sub":
+            shp = d[2][0]
+            base = vals[1]
+            nd = len(vals[2][1]) if vals[2][0] == "tuple" else 1
+            want = {("sub", ("attr", base, "shape"), ("const", -1))}
+            if any(x == ("const", Ellipsis) for x in (vals[2][1] if vals[2][0] == "tuple" else ())) or nd == 2:
+                want.add(("sub", ("attr", base, "shape"), ("const", 1)))
+            from ..pattern import norm as _norm
+
+            ok2 = shp in want or _norm(shp) in {_norm(w) for w in want}
+            if shp[0] == "sub" and shp[1] == ("attr", base, "shape") and shp[2][0] == "const" and isinstance(shp[2][1], int):
+                res.add(f, c, "the default estimator map has one entry per function (the last axis of the values)", ok2,
+                        "" if ok2 else f"the default map has `{show(shp, 40)}` entries, the realization axis: functions beyond it are never computed",
+                        construct=f"{f.name}: default estimator map size")
+    for pm in params:
+        isnone = ("cmp", "is", pm, ("const", None))
+        for node in ast.walk(f.node):
+            if isinstance(node, (ast.Assign, ast.AnnAssign)) and isinstance(node.value, ast.Call):
+                tg = node.targets[0] if isinstance(node, ast.Assign) else node.target
+                if isinstance(tg, ast.Name) and tg.id == pm[2] and X.at(f, node.value) in dflt:
+                    known = _conds_at(ctx, f, node).get(isnone)
+                    ok = known is not False
+                    res.add(f, node, "the default estimator map replaces the configured one only when none is configured", ok,
+                            "" if ok else f"`{norm_stmt(node)[:60]}` runs where `{pm[2]}` is present: every function is computed by the first estimator, whatever the configured map says",
+                            construct=f"{f.name}: default estimator map polarity")
+
+
 @rule(P)
 def c01_3(ctx: Ctx) -> RuleResult:
     res = RuleResult("C01.3", "COH", "function i is computed from column i, weights row i, by the estimator mapped to i, and stored at i; filter k's weights go to the rows mapped to k")
@@ -178,6 +267,10 @@ def c01_3(ctx: Ctx) -> RuleResult:
         ok = bool(rows) and all((s[2][1][0] if s[2][0] == "tuple" else s[2]) == col for s in rows)
         res.add(f, c, "the per-function weights row is row `idx` of the weight matrix", ok,
                 "" if ok else f"weights row index differs from the function index: {[show(s, 60) for s in rows]}", construct=f"{f.name}: weights row")
+        # which weights are in force: the matrix row exactly when a matrix was handed in, the configured weights exactly when not
+        _weights_selection(ctx, res, f, c, rows)
+        # an absent estimator map means "estimator 0 for every function"
+        _default_map(ctx, res, f, c, emap, vals)
         # result store index
         st = parent(c)
         while st is not None and not isinstance(st, ast.stmt):
@@ -217,6 +310,20 @@ def c01_3(ctx: Ctx) -> RuleResult:
     for f, c in filt_sites:
         t = X.at(f, c)
         recv = t[1][1]
+        # the filter ranks the objectives given as objectives and the constraints given as constraints
+        fargs = list(t[2]) + [v for _k, v in t[3]]
+        kws = {k: v for k, v in t[3]}
+        roles = [("objectives", kws.get("objectives", t[2][0] if len(t[2]) > 0 else None)), ("constraints", kws.get("constraints", t[2][1] if len(t[2]) > 1 else None))]
+        for want, at in roles:
+            if at is None:
+                continue
+            names = {s_[2] for a_ in alts(at) for s_ in subterms(a_) if s_[0] == "attr"} & {"objectives", "constraints"}
+            if not names:
+                continue
+            ok = names == {want}
+            res.add(f, c, f"the filter receives the evaluator's {want} in the `{want}` role", ok,
+                    "" if ok else f"the `{want}` argument of get_realization_weights is `{show(at, 60)}`: the filter ranks the wrong family of functions",
+                    construct=f"{f.name}: filter input {want}")
         # every configured filter is visited: the loop over the filters is never left early
         lp = parent(c)
         while lp is not None and not isinstance(lp, (ast.For, ast.While)):
@@ -269,6 +376,11 @@ def c01_3(ctx: Ctx) -> RuleResult:
             res.add(f, st, f"rows of `{tgt}` where {want}.realization_filters == k receive the weights of filter k (same enumerate)", ok,
                     "" if ok else ("filter object and filter index are not paired" if not ok_pair else f"rows are selected with the wrong map for `{tgt}`"),
                     construct=f"{f.name}: rows of {tgt}")
+    done_nc = set()
+    for f, _c in list(estimator_sinks(ctx, "calculate_function")) + filt_sites:
+        if f.qualname not in done_nc:
+            done_nc.add(f.qualname)
+            none_contradictions(ctx, res, f, "weights in force")
     res.floor = 8
     return res
 
